@@ -8,10 +8,14 @@ from .rules_C11 import normalize_name
 from .tables import Ref
 
 META = {
-    'explanation': 'ast rules over the generator classes (every loop that accumulates rendered text iterates a sorted() map, a list or '
-                   'a range; every class-level template receives all of its placeholders; every num* placeholder is len() of - or a '
-                   'counter over - the collection rendered beside it; InlineGenerator and PythonGenerator map every TypedDict key '
-                   'from the same source field) and E-TAB over the checked-in tools/zonedbpy (header counts, map keys, policy '
+    'explanation': 'E-SEQ over the Python ast (acv/pyeval.py, acv/genrender.py): ArduinoGenerator, PythonGenerator and '
+                   'ZoneListGenerator write their files for a tagged miniature database whose collections all have different sizes; '
+                   'every count in a comment heading, every `N /*numX*/` cell, kZoneRegistrySize and the registry array length must '
+                   'be the size of the collection its words name (per zone / per policy inside an item), and the same files must '
+                   'come out byte for byte when every map of the database is filled in the reverse order; ast rules over the '
+                   'generator classes (every loop that accumulates rendered text iterates a sorted() map, a list or '
+                   'a range; every class-level template receives all of its placeholders; InlineGenerator and PythonGenerator map '
+                   'every TypedDict key from the same source field) and E-TAB over the checked-in tools/zonedbpy (header counts, map keys, policy '
                    'references, every entry against its recorded TZ line, basic names inside extended names).',
     'decided': 'rendered order does not depend on dict/set iteration order (apart from the exempt reason lists): every walk over a '
                'set-typed local on the whole compile path is sorted or order-free; no class on the compile path fills a class-level '
@@ -39,10 +43,10 @@ def run(cfg):
     R = Report('C20', cfg)
     R.analysed['python_modules'] = list(GEN_FILES) + ['tools/zonedb/ingenerator.py', 'tools/zonedb/zone_specifier.py',
                                                       'tools/zonedbpy/zone_infos.py', 'tools/zonedbpy/zone_policies.py']
-    R.rule('R1', 'every rendering loop over a map iterates sorted(...)', floor=25)
+    R.rule('R1', 'every rendering loop over a map iterates sorted(...); the files written for the tagged database do not depend on the insertion order of its maps', floor=25)
     R.rule('R2', 'every class-level template is formatted with all of its placeholders', floor=35)
     R.rule('R3', 'InlineGenerator and PythonGenerator take every table key from the same source field; key sets equal the TypedDicts', floor=20)
-    R.rule('R4', 'every num* placeholder is len() of, or a counter over, the collection rendered beside it', floor=12)
+    R.rule('R4', 'every count in the files written for the tagged database is the size of the collection its words name', floor=12)
     R.rule('R6', 'checked-in tools/zonedbpy: counts, map keys, policy references, entries == recorded lines; basic subset of extended', floor=1500)
     R.rule('R1-set', 'no order-dependent computation walks a set without sorted() anywhere on the compile path', floor=2)
     mods = [py.load(cfg, f) for f in GEN_FILES]
